@@ -264,6 +264,9 @@ fn mode_for(rng: &mut Rng) -> u8 {
     match rng.below(6) {
         0 => alloc::POISON,
         1 => alloc::MOVE,
+        // boxes scattered over all alignments the layout allows (the fresh-process reference has them
+        // all at 8 modulo 16): a result must not depend on the low bits of an address
+        2 | 3 => alloc::SCATTER0 + rng.below(200) as u8,
         _ => alloc::PLAIN,
     }
 }
@@ -336,6 +339,9 @@ fn scenario_history(acc: &mut Acc, seed: u64, index: u64, tier: Tier, rng: &mut 
         }
         if modes[pos] != alloc::PLAIN {
             acc.count("fault_allocator_mode_non_plain", 1);
+        }
+        if alloc::is_scatter(modes[pos]) {
+            acc.count("fault_allocator_mode_scatter", 1);
         }
         if h.digests[pos] != r[*i] {
             let mut sp = history_spec(&programs[..=pos], &modes[..=pos], pos);
